@@ -483,7 +483,7 @@ def parse_hist(line):
             continue
         recs.append({'time': parse_num(w[0]), 'pos': parse_list(w[1]), 'speed': parse_list(w[2]), 'acc': parse_list(w[3]),
                      'dT': parse_list(w[4]), 'lT': parse_list(w[5]), 'T': parse_list(w[6]), 'pwm': parse_num(w[7]),
-                     'cur': None if w[8] == '-' else parse_num(w[8]), 'locked': w[9] == '1'})
+                     'cur': None if w[8] == '-' else parse_num(w[8]), 'locked': w[9] == '1', 'raw': w})
     return st, recs
 
 
@@ -526,6 +526,10 @@ def compare_hist(tr, st, recs, rel=1e-7):
                 return f"instant {j}: current {cur[j]} vs model {r['cur']}"
         if tr['locked'] and len(tr['locked']) == n and tr['locked'][j] != r['locked']:
             return f"instant {j}: lock flag {tr['locked'][j]} vs model {r['locked']}"
+        if tr.get('gears_in_model'):
+            g = compare_gear_vars(tr, j, r['raw'])
+            if g is not None:
+                return g
     if st.get('locked') is not None and (st['locked'] == '1') != tr['final_locked']:
         return f"final lock flag {tr['final_locked']} vs model {st['locked']}"
     return None
@@ -644,7 +648,7 @@ def pipe_line(spec, tr, b):
     if spec['motor'].get('pwm0') is not None:
         rest.append(f"pwm0={R(spec['motor']['pwm0'])}")
     rest.append('ops=' + ';'.join(model_ops(spec, tr)))
-    return 's pipe elems=' + ';'.join(toks) + ' decls=' + decls + ' inertias=' + inertias + ' ' + ' '.join(cfg) + ' ' + ' '.join(rest)
+    return 's pipe elems=' + ';'.join(toks) + ' decls=' + decls + ' inertias=' + inertias + ' ' + ' '.join(cfg) + ' ' + gear_tokens(b) + ' ' + ' '.join(rest)
 
 
 def parse_pipe(line, spec, tr):
@@ -659,3 +663,78 @@ def parse_pipe(line, spec, tr):
     if chain != want:
         return f'model chain {chain}, implementation chain {want}', st, recs
     return None, st, recs
+
+
+# --------------------------------------------------------------------------------------------
+# gear data for the model's `_compute_force` / `_compute_stress` (read from the built objects)
+# --------------------------------------------------------------------------------------------
+
+def gear_tokens(b):
+    from gearpy.mechanical_objects import GearBase, MatingMaster, MatingSlave
+    toks = []
+    for o in b.E:
+        role = getattr(o, 'mating_role', None)
+        rtok = 'master' if role is MatingMaster else 'slave' if role is MatingSlave else '-'
+        is_worm = isinstance(o, WormGear)
+        if not (isinstance(o, GearBase) or is_worm):
+            toks.append('-,-,1,-,-,1,1')
+            continue
+        mate = getattr(o, 'drives', None) if role is MatingMaster else getattr(o, 'driven_by', None) if role is MatingSlave else None
+        d = k = den = ct = '-'
+        k = '1'
+        mm = me = '1'
+        if o.tangential_force_is_computable:
+            dq = o.reference_diameter
+            dF = F(dq.value) * code_factor('Length', dq.unit)
+            d = R(dF)
+            k = R(o.helix_angle.tan()) if is_worm else '1'
+            if isinstance(o, GearBase) and o.bending_stress_is_computable:
+                bF = F(o.face_width.value) * code_factor('Length', o.face_width.unit)
+                Y = F(float(o.lewis_factor))
+                if isinstance(o, WormWheel):
+                    dw = F(mate.reference_diameter.value) * code_factor('Length', mate.reference_diameter.unit)
+                    pn = F(math.pi) * dw * F(mate.helix_angle.sin()) / o.n_teeth
+                    beff = min(bF, F(0.67) * dw)
+                    den = R(pn * beff * Y)
+                else:
+                    mF = F(o.module.value) * code_factor('Length', o.module.unit)
+                    den = R(mF * bF * Y)
+                if o.contact_stress_is_computable:
+                    beta = qsi(o.helix_angle) if isinstance(o, HelicalGear) else 0.0
+                    at = math.atan(math.tan(math.radians(20)) / math.cos(beta)) if isinstance(o, HelicalGear) else None
+                    sinA = math.sin(at) if at is not None else U.Angle(20, 'deg').sin()
+                    cosA = math.cos(at) if at is not None else U.Angle(20, 'deg').cos()
+                    E1 = F(o.elastic_modulus.value) * code_factor('Stress', o.elastic_modulus.unit)
+                    mm = '1' if (mate is not None and getattr(mate, 'module', None) is not None) else '0'
+                    me = '1' if (mate is not None and getattr(mate, 'elastic_modulus', None) is not None) else '0'
+                    E2 = F(mate.elastic_modulus.value) * code_factor('Stress', mate.elastic_modulus.unit) if me == '1' else F(0)
+                    d2 = F(mate.reference_diameter.value) * code_factor('Length', mate.reference_diameter.unit) if mm == '1' else F(0)
+                    ct = '~'.join(R(x) for x in (E1, E2, dF, d2, bF, sinA, cosA, math.cos(beta)))
+        toks.append(','.join([rtok, d, k, den, ct, mm, me]))
+    return 'gears=' + ';'.join(toks)
+
+
+def parse_opt_list(s):
+    s = s.strip('[]')
+    return [None if x == '-' else parse_num(x) for x in s.split(',')] if s else []
+
+
+def compare_gear_vars(tr, j, w):
+    """model's force / bending / contact² lists (tokens w[10..12]) against instant j of the implementation"""
+    if len(w) < 13:
+        return None
+    lists = {'tangential force': parse_opt_list(w[10]), 'bending stress': parse_opt_list(w[11]), 'contact stress': parse_opt_list(w[12])}
+    for var, ml in lists.items():
+        for ei, e in enumerate(tr['els']):
+            has = var in e
+            mv = ml[ei] if ei < len(ml) else None
+            if has != (mv is not None):
+                return f"instant {j} element {ei}: {var} " + ('recorded by the implementation only' if has else 'computed by the model only')
+            if has:
+                a = e[var][j]
+                if var == 'contact stress':
+                    a = a * a
+                sc = max(abs(a), abs(mv), 1e-12)
+                if not abs(a - mv) <= 1e-8 * sc:
+                    return f'instant {j} element {ei} {var}' + (' (squared)' if var == 'contact stress' else '') + f': {a} vs model {mv}'
+    return None
